@@ -40,16 +40,16 @@ ASSUMPTIONS = ['Z3 steps are stubbed (z3wrapper.check_z3 = False), the repo\'s o
                'the protocol of server.monitor.check_proof',
                'after a state failed its full re-check, later operations on that history are only judged structurally',
                'app.ide is imported with a stub for app.app (Flask 3 cannot import the repo\'s JSON encoder); only ProofCache is driven']
-REQUIRED = {'quick': {'ops_accepted': 2500, 'ops_rejected': 300, 'rechecks_ok': 2000, 'gap_reports_compared': 2000,
-                      'structure_walks': 2500, 'citations_resolved': 5000, 'reimports_compared': 1500,
-                      'complete_proofs_rechecked_no_gaps': 60, 'isolation_checked': 3000, 'isolation_checked_after_raise': 300,
-                      'lib_recorded_steps_accepted': 1500, 'perturbed_ops_accepted': 300, 'gen_ops_accepted': 300,
-                      'search_calls': 100, 'ide_history_states_compared': 50},
-            'thorough': {'ops_accepted': 30000, 'ops_rejected': 3000, 'rechecks_ok': 25000, 'gap_reports_compared': 25000,
-                         'structure_walks': 30000, 'citations_resolved': 60000, 'reimports_compared': 20000,
-                         'complete_proofs_rechecked_no_gaps': 1500, 'isolation_checked': 33000,
-                         'isolation_checked_after_raise': 3000, 'lib_recorded_steps_accepted': 20000,
-                         'perturbed_ops_accepted': 3000, 'gen_ops_accepted': 3000, 'search_calls': 1000,
+REQUIRED = {'quick': {'ops_accepted': 1300, 'ops_rejected': 300, 'rechecks_ok': 1200, 'gap_reports_compared': 1200,
+                      'structure_walks': 1400, 'citations_resolved': 20000, 'reimports_compared': 900,
+                      'complete_proofs_rechecked_no_gaps': 100, 'isolation_checked': 1600, 'isolation_checked_after_raise': 300,
+                      'lib_recorded_steps_accepted': 900, 'perturbed_ops_accepted': 120, 'gen_ops_accepted': 250,
+                      'search_calls': 300, 'ide_history_states_compared': 100},
+            'thorough': {'ops_accepted': 20000, 'ops_rejected': 3000, 'rechecks_ok': 18000, 'gap_reports_compared': 18000,
+                         'structure_walks': 20000, 'citations_resolved': 400000, 'reimports_compared': 15000,
+                         'complete_proofs_rechecked_no_gaps': 1500, 'isolation_checked': 24000,
+                         'isolation_checked_after_raise': 3000, 'lib_recorded_steps_accepted': 18000,
+                         'perturbed_ops_accepted': 1500, 'gen_ops_accepted': 3000, 'search_calls': 2000,
                          'ide_history_states_compared': 500}}
 SHARD_TIMEOUT = {'quick': 900, 'thorough': 7200}
 
@@ -59,7 +59,7 @@ GEN_VARS = {'A': 'bool', 'B': 'bool', 'C': 'bool', 'P': "'a => bool", 'Q': "'a =
 
 def shards(tier, seed):
     if tier == 'quick':
-        return ([{'kind': 'lib', 'i': i, 'parts': 11, 'frac': 0.07, 'branch': 0.5, 'export_p': 0.4, 'window': 30, 'budget': 230}
+        return ([{'kind': 'lib', 'i': i, 'parts': 11, 'frac': 0.1, 'branch': 0.5, 'export_p': 0.4, 'window': 30, 'budget': 320}
                  for i in range(11)] +
                 [{'kind': 'gen', 'i': i, 'goals': 26, 'ops': 12} for i in range(4)] +
                 [{'kind': 'ide', 'i': 0, 'theorems': 14}])
@@ -218,6 +218,7 @@ class Track:
 def install_tracker():
     """remember the innermost proof item at which a check raised (for classification only)"""
     from kernel.theory import Theory
+    install_oplog()
     if Track.installed:
         return
     orig = Theory._check_proof_item
@@ -233,8 +234,99 @@ def install_tracker():
     Track.installed = True
 
 
+class OpLog:
+    """what the editing primitives did during the operation in progress (monitors on ProofState.remove_line /
+    set_line; used only to name the root cause of a failure, never to decide one)"""
+    removed = []          # (id tuple, rule, alpha shadow of the stated proposition or None)
+    stale_trivial = False
+    installed = False
+
+    @classmethod
+    def reset(cls):
+        cls.removed = []
+        cls.stale_trivial = False
+
+
+def install_oplog():
+    from server.method import ProofState
+    from kernel.proof import ItemID
+    if OpLog.installed:
+        return
+    orig_remove, orig_set = ProofState.remove_line, ProofState.set_line
+
+    def remove_line(self, id):
+        try:
+            it = self.get_proof_item(ItemID(id))
+            prop = S.alpha(S.tm_shadow(it.th.prop)) if it.th is not None else None
+            OpLog.removed.append((ItemID(id).id, it.rule, prop))
+        except Exception:
+            pass
+        return orig_remove(self, id)
+
+    def set_line(self, id, rule, *, args=None, prevs=None, th=None):
+        try:
+            if rule == 'trivial' and args is not None:
+                a = S.alpha(S.tm_shadow(args))
+                if any(r[0] == ItemID(id).id and r[2] == a for r in OpLog.removed):
+                    OpLog.stale_trivial = True
+        except Exception:
+            pass
+        return orig_set(self, id, rule, args=args, prevs=prevs, th=th)
+    ProofState.remove_line = remove_line
+    ProofState.set_line = set_line
+    OpLog.installed = True
+
+
+def recheck_mechanism(sess, new, op, M):
+    """mechanism key of a failing full re-check; root causes that are already understood get their own key (a predicate
+    on what the operation did), so that listing them as known cannot hide other failures of the same method"""
+    name = op_name(op)
+    failing_rule, failing_id = Track.first if Track.first else (None, None)
+    step = op.get('step', {}) if op['op'] == 'method' else {}
+    if OpLog.stale_trivial:
+        return 'recheck-fails-after-edit:apply_tactic-closes-an-already-removed-subgoal-as-trivial'
+    if name == 'introduction' and any(r[1] != 'sorry' for r in OpLog.removed):
+        return 'recheck-fails-after-edit:introduction-removes-a-non-gap-line-of-its-new-block'
+    given = [x.strip() for x in (step.get('names') or '').split(',') if x.strip()]
+    if name in ('introduction', 'exists_elim') and given:
+        try:
+            used = set(sess.cur.get_vars(step['goal_id']))
+        except Exception:
+            used = set()
+        if used & set(given):
+            return 'recheck-fails-after-edit:%s-with-a-name-already-in-use' % name
+    if name == 'exists_elim':
+        if failing_rule == 'intros' and len(given) > 1:
+            return 'recheck-fails-after-edit:exists_elim-with-several-names'
+        for _, it in flat_lines(new):
+            if it.th is not None and ((it.rule == 'assume' and len(it.th.hyps) > 1) or (it.rule == 'variable' and len(it.th.hyps) > 0)):
+                return 'recheck-fails-after-edit:exists_elim-adds-its-hypothesis-to-later-assume-or-variable-lines'
+    if failing_rule == name and failing_id == step.get('goal_id'):
+        return 'recheck-fails-after-edit:macro-method-on-a-goal-its-macro-does-not-prove:' + name
+    if failing_id is not None:
+        by = {str(it.id): it for _, it in flat_lines(new)}
+        L = by.get(failing_id)
+        if L is not None and L.th is not None:
+            k = seq_key(thm_sh(L.th, M))
+            for p in L.prevs:
+                c = by.get(str(p))
+                if c is not None and c.rule == 'sorry' and seq_key(thm_sh(c.th, M)) == k:
+                    return 'recheck-fails-after-edit:%s-leaves-the-goal-unchanged' % name
+    return 'recheck-fails-after-edit:' + name
+
+
 def exc_name(e):
     return type(e).__name__
+
+
+def sstr(x, n=300):
+    """printing goes through the repo's printer, which can itself raise (schematic variables without a context)"""
+    try:
+        return str(x)[:n]
+    except (KeyboardInterrupt, SystemExit):
+        raise
+    except BaseException as e:
+        return '<unprintable: %s>' % exc_name(e)
 
 
 # ------------------------------------------------------------------ sessions and operations
@@ -243,6 +335,7 @@ class Session:
         self.ctx, self.origin, self.vars, self.cur, self.goal, self.kind = ctx, origin, vars_, state, goal_key, kind
         self.ops = []
         self.tainted = False
+        self.bad_structure = False
         self.reported = set()
         self.last_step = None
         self.last_params = None
@@ -256,6 +349,7 @@ class Session:
         s = Session(self.ctx, self.origin, self.vars, self.cur, self.goal, self.kind)
         s.ops = list(self.ops)
         s.tainted = self.tainted
+        s.bad_structure = self.bad_structure
         s.reported = self.reported
         s.last_step = self.last_step
         return s
@@ -370,6 +464,7 @@ def apply_op(sess, op, tag):
     before = snapshot(cur, M)
     new = copy.copy(cur)
     ok, query = True, None
+    OpLog.reset()
     try:
         exec_op(new, op)
         new.check_proof(compute_only=True)
@@ -421,14 +516,18 @@ def judge(sess, new, op, M):
     ctx = sess.ctx
     name = op_name(op)
     # (c) structure
-    for mech, desc in structure_problems(ctx, new):
-        sess.violation(mech + ':' + name, desc, op)
+    if sess.bad_structure:
+        ctx.count('ops_on_history_whose_structure_was_already_broken')
+    else:
+        for mech, desc in structure_problems(ctx, new):
+            sess.bad_structure = True
+            sess.violation(mech + ':' + name, desc, op)
     # (b) goal on the stored last line
     last = new.prf.items[-1] if new.prf.items else None
     last_key = seq_key(thm_sh(last.th, M)) if last is not None else None
     if last_key != sess.goal:
         sess.violation('goal-changed:' + name, 'last line (%s) states %s, the goal was %s' % (
-            last.rule if last is not None else None, last.th if last is not None else None, sess.origin.get('prop')), op)
+            last.rule if last is not None else None, sstr(last.th) if last is not None else None, sess.origin.get('prop')), op)
     if sess.tainted:
         ctx.count('ops_on_history_whose_recheck_already_failed')
         return
@@ -441,14 +540,14 @@ def judge(sess, new, op, M):
         raise
     except BaseException as e:
         sess.tainted = True
-        sess.violation('recheck-fails-after-edit:' + name,
+        sess.violation(recheck_mechanism(sess, new, op, M),
                        'the operation returned normally (and check_proof(compute_only=True) passed) but the full check raises %s at line %s: %s' % (
-                           exc_name(e), Track.first, str(e)[:300].replace('\n', ' | ')), op)
+                           exc_name(e), Track.first, sstr(e, 300).replace('\n', ' | ')), op)
         return
     ctx.count('rechecks_ok')
     res_key = seq_key(thm_sh(res, M)) if res is not None else None
     if res_key != sess.goal:
-        sess.violation('goal-changed:' + name, 'the full check returns %s, the goal was %s' % (res, sess.origin.get('prop')), op)
+        sess.violation('goal-changed:' + name, 'the full check returns %s, the goal was %s' % (sstr(res), sess.origin.get('prop')), op)
     want = visible_sorrys(new, M)
     got = Counter(seq_key(thm_sh(g, M)) for g in chk.rpt.gaps)
     ctx.count('gap_reports_compared')
@@ -470,7 +569,7 @@ def judge(sess, new, op, M):
             chk2.check_proof(no_gaps=True)
         except BaseException as e:
             sess.violation('complete-proof-rejected-with-gaps-disallowed:' + name, 'no gap is left but check_proof(no_gaps=True) raises %s: %s' % (
-                exc_name(e), str(e)[:200]), op)
+                exc_name(e), sstr(e, 200)), op)
     # (e) export -> import (sampled on long proofs in the quick tier; always in replays)
     if not sess.do_export(len(flat_lines(new))):
         ctx.count('export_not_sampled')
@@ -479,7 +578,7 @@ def judge(sess, new, op, M):
         with global_setting(unicode=True):
             exp = new.export_proof()
     except BaseException as e:
-        sess.violation('export-import-differs:export-raises:' + exc_name(e), 'export_proof raised %s' % str(e)[:200], op)
+        sess.violation('export-import-differs:export-raises:' + exc_name(e), 'export_proof raised %s' % sstr(e, 200), op)
         return
     ctx.count('exports')
     context.set_context(None, vars=sess.vars)
@@ -522,15 +621,16 @@ def judge(sess, new, op, M):
         if ka != kb:
             mech, detail = classify_sequent_diff(new, ia, ib, M, M2)
             sess.violation(mech, 'line %s (%s): stated sequent %s re-imported as %s; %s (exported text: %s)' % (
-                ia.id, ia.rule, str(ia.th)[:300], str(ib.th)[:300], detail, exp[k]['th'][:200]), op)
+                ia.id, ia.rule, sstr(ia.th), sstr(ib.th), detail, exp[k]['th'][:200]), op)
             break
         if exp2 is not None and exp2[k]['args'] != exp[k]['args']:
-            sess.violation('export-import-differs:printed-arguments:' + ia.rule, 'line %s (%s): arguments printed as %r, after re-import %r' % (
+            rt = term_round_trip_failure(new, ia)
+            sess.violation(C07_MECH if rt else 'export-import-differs:printed-arguments:' + ia.rule, 'line %s (%s): arguments printed as %r, after re-import %r' % (
                 ia.id, ia.rule, exp[k]['args'][:160], exp2[k]['args'][:160]), op)
             break
     ilast = imp.prf.items[-1].th if imp.prf.items else None
     if seq_key(thm_sh(ilast, M2)) != res_key:
-        sess.violation('export-import-differs:check-result', 're-imported proof checks to %s instead of %s' % (ilast, res), op)
+        sess.violation('export-import-differs:check-result', 're-imported proof checks to %s instead of %s' % (sstr(ilast), sstr(res)), op)
     got2 = Counter(seq_key(thm_sh(g, M2)) for g in imp.rpt.gaps)
     if got2 != got:
         sess.violation('export-import-differs:check-result-gaps', 're-imported proof reports %d gaps instead of %d' % (
@@ -560,6 +660,50 @@ def var_types_at(state, item, M):
     return seen
 
 
+def item_terms(item):
+    from kernel.term import Term, Inst
+    out = []
+    if item.th is not None:
+        out.extend(item.th.hyps)
+        out.append(item.th.prop)
+    a = item.args
+    for x in (a if isinstance(a, (tuple, list)) else [a]):
+        if isinstance(x, Term):
+            out.append(x)
+        elif isinstance(x, Inst):
+            out.extend(x.values())
+    return out
+
+
+def term_round_trip_failure(state, item):
+    """does one of the terms of the line, taken alone, fail print -> parse under the variables visible at the line?
+    (that is the printer/grammar disagreement which property C07 is about, surfacing through the proof export)"""
+    from logic import context
+    from syntax import parser, printer
+    from syntax.settings import global_setting
+    try:
+        vars_ = state.get_vars(item.id)
+    except Exception:
+        return None
+    for t in item_terms(item):
+        try:
+            before = S.alpha(S.tm_shadow(t))
+            with global_setting(unicode=True):
+                txt = printer.print_term(t)
+            with context.fresh_context(vars=vars_):
+                t2 = parser.parse_term(txt)
+            if S.alpha(S.tm_shadow(t2)) != before:
+                return 'the term printed as %r parses back to a different term' % txt[:120]
+        except (KeyboardInterrupt, SystemExit):
+            raise
+        except BaseException as e:
+            return 'a term of the line (%s) does not survive print -> parse on its own: %s' % (sstr(t, 100), exc_name(e))
+    return None
+
+
+C07_MECH = 'export-import-differs:a-term-of-the-line-does-not-survive-print-parse(see C07)'
+
+
 def classify_import_failure(sess, new, exp, e, M):
     """mechanism key for a re-import that raised: which stage, which line, and known root causes"""
     from logic import context
@@ -582,12 +726,14 @@ def classify_import_failure(sess, new, exp, e, M):
             except BaseException:
                 pass
             clash = it is not None and any(len(ts) > 1 for ts in var_types_at(new, it, M).values())
+            rt = None
             if clash:
                 mech = 'export-import-differs:one-name-for-variables-of-two-types'
             else:
-                mech = 'export-import-differs:line-unparsable:%s:%s' % (field, exc_name(e2))
-            return mech, 'exported line %s (%s) cannot be parsed back: %s %s; th=%r args=%r' % (
-                line['id'], line['rule'], exc_name(e2), str(e2)[:160].replace('\n', ' | '), line['th'][:200], line['args'][:120])
+                rt = term_round_trip_failure(new, it) if it is not None else None
+                mech = C07_MECH if rt else 'export-import-differs:line-unparsable:%s:%s' % (field, exc_name(e2))
+            return mech, 'exported line %s (%s) cannot be parsed back: %s %s; th=%r args=%r %s' % (
+                line['id'], line['rule'], exc_name(e2), sstr(e2, 160).replace('\n', ' | '), line['th'][:200], line['args'][:120], rt or '')
     rule, lid = Track.first if Track.first else ('?', '?')
     it = by_id.get(lid)
     clash = it is not None and any(len(ts) > 1 for ts in var_types_at(new, it, M).values())
@@ -606,7 +752,7 @@ def classify_import_failure(sess, new, exp, e, M):
         mech = 'export-import-differs:one-name-for-variables-of-two-types'
     return (mech,
             'all lines parse back, but checking the re-imported proof raises %s at line %s (%s): %s; exported line: %s' % (
-                exc_name(e), lid, rule, str(e)[:200].replace('\n', ' | '), json.dumps(line, ensure_ascii=False)[:300]))
+                exc_name(e), lid, rule, sstr(e, 200).replace('\n', ' | '), json.dumps(line, ensure_ascii=False)[:300]))
 
 
 def first_diff(x, y, path=''):
@@ -636,6 +782,9 @@ def classify_sequent_diff(new, ia, ib, M, M2):
         return 'export-import-differs:stated-sequent:missing', ''
     if any(len(ts) > 1 for ts in var_types_at(new, ia, M).values()):
         return 'export-import-differs:one-name-for-variables-of-two-types', ''
+    rt = term_round_trip_failure(new, ia)
+    if rt:
+        return C07_MECH, rt
 
     def erase(sh):
         # same term up to types?
@@ -1133,10 +1282,10 @@ def new_session(ctx, origin, vars_, prop, kind):
     sess = Session(ctx, origin, vars_, state, goal, kind)
     # the initial state is judged too
     for mech, desc in structure_problems(ctx, state):
-        sess.violation(mech, desc, {'op': 'init'})
+        sess.violation(mech + ':init', desc, {'op': 'init'})
     last = state.prf.items[-1]
     if seq_key(thm_sh(last.th, M)) != goal:
-        sess.violation('goal-changed', 'initial state: last line states %s' % last.th, {'op': 'init'})
+        sess.violation('goal-changed:init', 'initial state: last line states %s' % sstr(last.th), {'op': 'init'})
     return sess
 
 
@@ -1170,18 +1319,18 @@ def run_lib(ctx, spec):
                 except BaseException as e:
                     import traceback
                     ctx.count('lib_harness_error:' + exc_name(e))
-                    ctx.note('harness error in %s.%s: %s' % (name, item.name, traceback.format_exc()[-700:]))
+                    ctx.note('harness error in %s.%s: %s' % (name, item.name, traceback.format_exc()[-1500:]))
         except (KeyboardInterrupt, SystemExit):
             raise
         except BaseException as e:
             ctx.count('lib_theory_error:' + exc_name(e))
-            ctx.note('theory %s: %s %s' % (name, exc_name(e), str(e)[:200]))
+            ctx.note('theory %s: %s %s' % (name, exc_name(e), sstr(e, 200)))
 
 
 def lib_theorem(ctx, spec, thy, item, rng):
     origin = {'kind': 'lib', 'theory': thy, 'theorem': item.name}
     sess = new_session(ctx, origin, item.vars, item.prop, 'lib')
-    origin['prop'] = str(item.prop)
+    origin['prop'] = sstr(item.prop)
     from kernel import theory
     steps = list(item.steps)
     nb = sum(1 for _ in range(3) if rng.random() < spec['branch'])
@@ -1210,6 +1359,18 @@ def lib_theorem(ctx, spec, thy, item, rng):
             sess.ops.append(op)
             ctx.count('lib_steps_applied_before_window')
             continue
+        if k == lo and lo > 0:
+            # the window must start from a state that is itself fine, else later findings cannot be attributed
+            try:
+                copy.copy(sess.cur).check_proof()
+            except (KeyboardInterrupt, SystemExit):
+                raise
+            except BaseException:
+                sess.tainted = True
+                ctx.count('window_starts_on_state_failing_recheck')
+            if structure_problems(ctx, sess.cur):
+                sess.bad_structure = True
+                ctx.count('window_starts_on_state_with_broken_structure')
         if k in points:
             b = sess.fork()
             perturb(b, rng, rng.choice([1, 2, 3]), steps, 'perturbed_ops_accepted', allow_search=not big or rng.random() < 0.15)
@@ -1296,6 +1457,18 @@ def run_gen(ctx, spec):
             ctx.count('gen_goal_not_parsed:' + exc_name(e))
             continue
         ctx.count('gen_goals')
+        try:
+            gen_session(ctx, spec, sess, thy, rng)
+        except (KeyboardInterrupt, SystemExit):
+            raise
+        except BaseException as e:
+            import traceback
+            ctx.count('gen_harness_error:' + exc_name(e))
+            ctx.note('harness error on goal %s: %s' % (prop, traceback.format_exc()[-900:]))
+
+
+def gen_session(ctx, spec, sess, thy, rng):
+    if True:
         nops = spec['ops'] if thy == 'logic' else spec['ops'] // 2
         # main line: search-biased so that proofs progress; side branches with arbitrary perturbations
         for j in range(nops):
@@ -1388,7 +1561,7 @@ def run_ide(ctx, spec):
         ide = import_ide()
     except BaseException as e:
         ctx.count('ide_unavailable:' + exc_name(e))
-        ctx.note('app.ide cannot be imported: %s' % str(e)[:200])
+        ctx.note('app.ide cannot be imported: %s' % sstr(e, 200))
         return
     from prover import z3wrapper
     z3wrapper.check_z3 = False
